@@ -88,7 +88,7 @@ def step (s : St) (line : String) : St × String :=
     ({ ft := { compat := get "compat", kuf := get "kuf", deq := get "deq", setter := get "setter", noProcessor := get "noproc",
                enumAnn := get "enumann", fieldMask := get "fm", halfway := get "halfway", fastgo := be == "fastgo",
                adaptor := get "adaptor", resV2 := Generated.C01.reservesDeclaredMethods,
-               svcV2 := Generated.C01.reservesClientAccessor } }, "ok")
+               svcV2 := Generated.C01.reservesClientAccessor, fnV2 := Generated.C01.reservesNil } }, "ok")
   | ["I", r, v] => ({ s with table := put (hex? r) (hex? v) s.table }, "ok")
   | "F" :: _ => ({ ft := s.ft, table := s.table }, "ok")
   | ["V", n, e] => ({ s with svcs := { name := hex? n, fns := [] } :: s.svcs, bases := (hex? n, flag e) :: s.bases }, "ok")
